@@ -5,7 +5,7 @@ import GB.C07.Model
   (webbridge/grpcweb.go lpmTrailerValue, after fix D36).
 
     lpmTrailer(md) writes, per key and value,  fmt.Sprintf("%s: %s\r\n", k, lpmTrailerValue(k, v))
-    lpmTrailerValue(k, v) = base64.RawStdEncoding.EncodeToString(v)          if k ends in "-bin" (ASCII case-insensitive)
+    lpmTrailerValue(k, v) = base64.RawStdEncoding.EncodeToString(v)          if strings.HasSuffix(k, "-bin")
                           = strings.NewReplacer("\n", " ", "\r", " ").Replace(v)   otherwise
 
   gRPC-Go hands binary metadata to the bridge DECODED (arbitrary bytes); before the fix every value was written as-is.
@@ -15,13 +15,10 @@ import GB.C07.Model
 namespace GB.C08
 open GB
 
-/-- internal/ascii lower -/
-def lowerB (c : UInt8) : UInt8 := if 65 ≤ c ∧ c ≤ 90 then c + 32 else c
-
 def kBinSuffix : Bytes := [45, 98, 105, 110]   -- "-bin"
 
-/-- `len(k) >= len("-bin") && ascii.EqualFold(k[len(k)-4:], "-bin")` -/
-def isBinKey (k : Bytes) : Bool := decide (4 ≤ k.length) && (k.drop (k.length - 4)).map lowerB == kBinSuffix
+/-- `strings.HasSuffix(k, "-bin")` (metadata.MD keys are lower-case; gRPC-Go's own test) -/
+def isBinKey (k : Bytes) : Bool := decide (4 ≤ k.length) && k.drop (k.length - 4) == kBinSuffix
 
 /-- base64.RawStdEncoding.EncodeToString (no padding) -/
 def encodeRaw : Bytes → Bytes
